@@ -183,3 +183,24 @@ def design_run(name, consts, invariants, dump=True, workers=16, timeout=3600, co
       dumps.setdefault(synth.scn_key(d["scn"]), d)
     r.dump_lines, r.dump_parsed = len(lines), len(parsed)
   return r, dumps
+
+
+def design_run_from(name, scns, invariants=(), workers=16, timeout=3600):
+  """Runs the specification's machine on GIVEN scenarios (PipelineFrom.tla); returns (result, {key: terminal dump})."""
+  from harness import configs, synth  # pylint: disable=g-import-not-at-top
+  path = os.path.join(tlc.WORK, name + "_scns.json")
+  os.makedirs(tlc.WORK, exist_ok=True)
+  clean = [{k: v for k, v in s.items() if k in ("subs", "mode", "inmode", "outmode")} for s in scns]
+  for s in clean:
+    for sub in s["subs"]:
+      sub.setdefault("tbuf", [0] * len(sub["trole"]))
+      sub.setdefault("tsh", [[0, 0]] * len(sub["trole"]))
+  with open(path, "w") as f:
+    json.dump(clean, f)
+  c = configs.cfg(1, ["FC"], [configs.NOQ], [configs.NOQ], [configs.NOQ])
+  r = tlc.run(name, "PipelineFrom", c, invariants=list(invariants), constraints=["DumpC"], spec_name="SpecFrom", workers=workers,
+              env={"SCN_FILE": path}, extends="PipelineFrom", timeout=timeout)
+  dumps = {}
+  for d in r.json_dumps():
+    dumps.setdefault(synth.scn_key(d["scn"]), d)
+  return r, dumps
